@@ -35,6 +35,7 @@ import CtyModel.Lemmas.UnifyTyLaws
 import CtyModel.Lemmas.ConvertD08Mono
 import CtyModel.Lemmas.ConvertD08Fuel
 import CtyModel.Lemmas.ConvertD08Covers
+import CtyModel.Lemmas.ConvertD08Roundtrip
 namespace CtyModel
 namespace C08
 open Convert Ty
@@ -454,8 +455,7 @@ theorem roundtripNumberString_false : ¬ RoundtripNumberString := by
 
 /-- what does hold for every environment and fuel: zeros keep their sign and the
 infinities come back (the harness evaluates the round trip on every generated
-number; the class of finite non-zero numbers whose printed text is exact is not
-characterised here) -/
+number; the exact class of numbers that come back is `numTextExact`, below) -/
 theorem roundtrip_number_string_partial (E : Env) (fuel : Nat) (neg : Bool) (p : Nat) :
     (∃ s, convert E (fuel + 2) ⟨.number, .n (.inf neg)⟩ .string = .ok ⟨.string, .s s⟩ ∧
       convert E (fuel + 2) ⟨.string, .s s⟩ .number = .ok ⟨.number, .n (.inf neg)⟩) ∧
@@ -541,6 +541,41 @@ theorem roundtrip_object_map (E : Env) (hU : UnifyLaws E) (fuel : Nat) (T : Ty) 
       .ok ⟨.object ns its os, .smap ns ps⟩ :=
   ⟨object_to_map_same hU fuel T ns its os ps hT hTo hTd hne hall hw hln,
    map_to_object_same fuel T ns its os ps hT hTd hall hos hnd hln hlo (wtZip_length hw).symm hnn⟩
+
+/-- object → map → object THROUGH ELEMENT CONVERSIONS: the attributes may have different types.
+`cs` are the element conversions `getConversionKnown` builds towards the map's element type `T`,
+`cs'` the ones it builds from `T` back to each attribute type.  If every attribute converts to
+`T` (giving the members `es'`) and every member converts back to its non-null attribute
+(`BackAll`), then the object converts to the map of the converted members, and converting that map
+to the object type returns the ORIGINAL object — for every environment satisfying `UnifyLaws`, every
+fuel and depth.  The hypotheses on the elements are conversions of the same model, so the theorem
+composes with `roundtrip_bool_string`, `roundtrip_number_string_iff`, and with itself. -/
+theorem roundtrip_object_map_elems (E : Env) (hU : UnifyLaws E) (fuel : Nat) (T : Ty) (ns : List String)
+    (its : List Ty) (os : List Bool) (ps : List Payload) (cs cs' : List Plan) (es' : List Value)
+    (hT : wf T = true) (hTo : hasOpt T = false) (hTd : hasDyn T = false) (hne : its ≠ [])
+    (hw : wtZip its ps = true) (hnd : ns.Nodup) (hln : ns.length = its.length)
+    (hlo : os.length = its.length) (hos : ∀ o ∈ os, o = false)
+    (hgc : gcAll E its T true = some cs)
+    (hgc' : mapToObjConvs (fun o => gck E T o true) T its os = some cs')
+    (hF : applyZip (apply E fuel) id cs (zipTys its ps) = .ok es') (hty : ∀ e ∈ es', e.ty = T)
+    (hB : BackAll (apply E fuel) cs' es' (zipTys its ps)) :
+    convert E (fuel + 2) ⟨.object ns its os, .smap ns ps⟩ (.map T) = .ok ⟨.map T, .smap ns (es'.map (·.v))⟩ ∧
+    convert E (fuel + 2) ⟨.map T, .smap ns (es'.map (·.v))⟩ (.object ns its os) =
+      .ok ⟨.object ns its os, .smap ns ps⟩ :=
+  object_map_object_elems hU fuel T ns its os ps cs cs' es' hT hTo hTd hne hw hnd hln hlo hos hgc hgc' hF hty hB
+
+/-- the hypotheses are satisfiable with real element conversions inside: `{a = true, b = "x"}` ↔
+`{a = "true", b = "x"} : map(string)` (bool → string out, string → bool back, the string as it is) -/
+example :
+    convert Env.simple 4 ⟨.object ["a", "b"] [.bool, .string] [false, false], .smap ["a", "b"] [.b true, .s "x"]⟩
+        (.map .string) = .ok ⟨.map .string, .smap ["a", "b"] [.s "true", .s "x"]⟩ ∧
+    convert Env.simple 4 ⟨.map .string, .smap ["a", "b"] [.s "true", .s "x"]⟩
+        (.object ["a", "b"] [.bool, .string] [false, false]) =
+      .ok ⟨.object ["a", "b"] [.bool, .string] [false, false], .smap ["a", "b"] [.b true, .s "x"]⟩ :=
+  roundtrip_object_map_elems Env.simple unifyLaws_simple 2 .string ["a", "b"] [.bool, .string] [false, false]
+    [.b true, .s "x"] [.wrap .string .boolToStr, .nil] [.wrap .bool .strToBool, .nil]
+    [⟨.string, .s "true"⟩, ⟨.string, .s "x"⟩] rfl rfl rfl (by simp) rfl (by decide) rfl rfl (by simp) rfl rfl rfl
+    (by simp) (.cons rfl rfl (.cons rfl rfl .nil))
 
 example : convert Env.simple 2 ⟨.object ["a", "b"] [.string, .string] [false, false],
       .smap ["a", "b"] [.s "x", .unk .unref]⟩ (.map .string) =
